@@ -252,6 +252,7 @@ def relations(rng, tier, rpt):
     rpt.extra["fresh_interpreter_observations"] = n_fresh
     # (b') order independence over the whole catalogue of public-API observations (harness/c15_catalogue.py): every entry's result as
     # the first call of a fresh interpreter is the reference; random histories (fresh interpreter each) and threaded runs must reproduce it
+    bad += _thread_codec_stress(rng, tier, rpt)
     bad += _order_independence(rng, tier, rpt)
     # (c) caller-supplied mutable arguments are not mutated
     elems = [0, 2**31, 5]
@@ -507,6 +508,8 @@ def _order_independence(rng, tier, rpt):
         quiet = [n for n in names if not n.startswith(("toggle.", "threadtoggle."))]
         thr = [rng.sample(quiet, len(quiet)) for _ in range(3 if tier == "quick" else 30)]
         touts = list(ex.map(lambda hs: _cat(hs, 4), thr))
+        tseq = _toggle_sequence_histories(rng, tier)
+        tseq_outs = list(ex.map(_cat, tseq))
 
     def minimise(hs, j):
         """smallest history (in the fresh-interpreter sense) on which entry hs[j] still departs from its reference"""
@@ -537,6 +540,7 @@ def _order_independence(rng, tier, rpt):
                                 "relation": "an option toggle set in one thread is not what another thread observes (%s)" % k,
                                 "impl_output": body[:400], "model_output": frag[:300], "no_failing_input": False})
                     break
+    bad += _toggle_sequence_verdicts(tseq, tseq_outs, rpt)
     seen = set()
     for kind, runs, results in (("after a history of other calls", hists, outs), ("when issued concurrently from 4 threads", thr, touts)):
         for hs, out in zip(runs, results):
@@ -555,3 +559,216 @@ def _order_independence(rng, tier, rpt):
     rpt.extra["catalogue_history_observations"] = sum(len(h) for h in hists)
     rpt.extra["catalogue_threaded_observations"] = sum(len(h) for h in thr)
     return bad[:6]
+
+
+def option_setters():
+    """every (family, coin, setter) of the hierarchy classes whose shared configuration object has a boolean option method (`Use…(value)`),
+    found by walking the public coin enumerations"""
+    out = []
+    for fam in sorted(FAM):
+        cls, en, getter = FAM[fam]
+        for coin in en:
+            conf = getter.GetConfig(coin)
+            for n in sorted(dir(conf)):
+                if n.startswith("Use") and callable(getattr(conf, n)):
+                    out.append((fam, coin.name, n))
+    return out
+
+
+def _toggle_sequence_histories(rng, tier):
+    """An option is a documented boolean switch `Use…(value)`: what the coin answers depends on the LAST value given, not on how many times or
+    in which order values were given before (set twice then restored, restored twice, re-set after a restore, …). One fresh interpreter per
+    (family, coin, setter): plain observation, observation under a single True (then restored), observation after each sequence of calls
+    (restored after each), plain observation again. Sequences: all the short ones with a repeated value, in random order, and random ones. Quick tier: up to four coins
+    per setter name; thorough: every (family, coin, setter)."""
+    allset = option_setters()
+    by_setter = {}
+    for t in allset:
+        by_setter.setdefault(t[2], []).append(t)
+    if tier == "quick":
+        chosen = [t for name in sorted(by_setter) for t in rng.sample(by_setter[name], min(4, len(by_setter[name])))]
+    else:
+        chosen = allset
+    # sequences with a repeated value (set twice, restored twice, re-set after a restore, …) plus random ones; each starts from the restored state
+    repeated = ["TTF", "TFF", "TFTTF", "TFFT", "FTTF", "FFT", "TTTFF", "TT", "TTFT"]
+    hists = []
+    for fam, mem, setter in chosen:
+        base = "toggleseq.%s.%s.%s." % (fam, mem, setter)
+        pats = rng.sample(repeated, len(repeated)) + ["".join(rng.choice("TF") for _ in range(rng.randrange(2, 9))) for _ in range(2 if tier == "quick" else 8)]
+        hists.append([base, base + "T"] + [base + p_ for p_ in pats] + [base])
+    return hists
+
+
+def _toggle_sequence_verdicts(hists, outs, rpt):
+    bad = []
+    n = 0
+    for hs, out in zip(hists, outs):
+        plain, single = out[0], out[1]
+        for name, o in list(zip(hs, out))[2:]:
+            n += 1
+            pattern = name.rsplit(".", 1)[1]
+            want = single if pattern.endswith("T") else plain
+            if o != want:
+                what = ("after the option calls %s (last value %s)" % (",".join("True" if c == "T" else "False" for c in pattern), pattern[-1] == "T")) if pattern else \
+                    "after the option was set and restored (sequences %s)" % [h.rsplit(".", 1)[1] for h in hs[1:-1]]
+                bad.append({"property": "C15", "entry_point": name, "request_lines": [], "catalogue_history": hs[:hs.index(name) + 1] if pattern else hs,
+                            "replay_cmd": "cd /verif && PYTHONPATH=/verif:/repo /venv/bin/python -m harness.c15_catalogue '%s'" % json.dumps(hs),
+                            "relation": "%s %s: the coin's results %s are not those of %s" % (
+                                name.split(".")[1] + "[" + name.split(".")[2] + "]", name.split(".")[3], what,
+                                "a single True" if pattern.endswith("T") else "the untouched configuration"),
+                            "impl_output": o[:500], "model_output": want[:500], "no_failing_input": False})
+                break
+    rpt.extra["option_sequence_observations"] = n
+    return bad[:3]
+
+
+def _codec_groups(rng, n_threads, per_thread):
+    """groups of pure public-API computations that share code (one address format, one checksum/hash utility, one text codec, one mnemonic
+    scheme); inside a group every thread gets its OWN inputs. -> [(group name, [thread -> [(description, thunk)]])]"""
+    import bip_utils as B
+    import bip_utils.utils.crypto as UC
+    from harness.props.addr_common import fmt_table, conv_kw, pub_forms, rand_priv
+    groups = []
+
+    def rbytes(n):
+        return bytes(rng.randrange(256) for _ in range(n))
+
+    def group(name, make):
+        groups.append((name, [[it for _ in range(per_thread) for it in make()] for _ in range(n_threads)]))
+
+    def once(f):
+        try:
+            return f()
+        except Exception:  # noqa
+            return None
+    for fmt, (curve, enc, dec, psets) in sorted(fmt_table().items()):
+        kw = dict(psets[rng.randrange(len(psets))])
+
+        def make(fmt=fmt, curve=curve, enc=enc, dec=dec, kw=kw):
+            pub = pub_forms(curve, rand_priv(rng, curve))[0]
+            ekw = conv_kw(fmt, dict(kw))
+            if fmt in ("xmr", "xmrint"):
+                ekw["pub_vkey"] = pub_forms(curve, rand_priv(rng, curve))[0]
+                if fmt == "xmrint":
+                    ekw["payment_id"] = rbytes(8)
+            dkw = {k: v for k, v in ekw.items() if k not in ("pub_key_mode", "trim_zeroes", "pub_vkey")}
+            addr = once(lambda: enc.EncodeKey(pub, **ekw))
+            its = [("%s.EncodeKey(%s, %s)" % (enc.__name__, pub.hex(), kw), lambda: enc.EncodeKey(pub, **ekw))]
+            if addr is not None:
+                its.append(("%s.DecodeAddr(%s, %s)" % (dec.__name__, addr, kw), lambda: dec.DecodeAddr(addr, **dkw)))
+            return its
+        group("address format " + fmt, make)
+    # every digest utility of the package (one-argument and keyed forms)
+    for name in sorted(dir(UC)):
+        cls = getattr(UC, name)
+        qd = getattr(cls, "QuickDigest", None)
+        if not isinstance(cls, type) or qd is None:
+            continue
+        d0 = rbytes(20)
+        arity = 1 if once(lambda: qd(d0)) is not None else 2 if once(lambda: qd(d0, d0)) is not None else 0
+        if not arity:
+            continue
+
+        def make(name=name, qd=qd, arity=arity):
+            data = rbytes(rng.choice([1, 20, 33, 35, 64, 200]))
+            key = rbytes(16)
+            return [("%s.QuickDigest(%s)" % (name, data.hex()), lambda: qd(data))] if arity == 1 else \
+                [("%s.QuickDigest(%s, %s)" % (name, key.hex(), data.hex()), lambda: qd(key, data))]
+        group("digest " + name, make)
+    # text codecs
+    def pair(label, encode, decode, mk_in):
+        def make():
+            x = mk_in()
+            txt = once(lambda: encode(x))
+            its = [("%s encode %s" % (label, x.hex() if isinstance(x, bytes) else x), lambda: encode(x))]
+            if txt is not None:
+                its.append(("%s decode %s" % (label, txt), lambda: decode(txt)))
+            return its
+        group("codec " + label, make)
+    pair("Base58Check", B.Base58Encoder.CheckEncode, B.Base58Decoder.CheckDecode, lambda: rbytes(rng.choice([1, 21, 33, 78])))
+    pair("Base58Check(ripple alphabet)", lambda b: B.Base58Encoder.CheckEncode(b, B.Base58Alphabets.RIPPLE), lambda t: B.Base58Decoder.CheckDecode(t, B.Base58Alphabets.RIPPLE), lambda: rbytes(21))
+    pair("Base58", B.Base58Encoder.Encode, B.Base58Decoder.Decode, lambda: rbytes(rng.choice([1, 32, 64])))
+    pair("Base58Xmr", B.Base58XmrEncoder.Encode, B.Base58XmrDecoder.Decode, lambda: rbytes(rng.choice([8, 69, 77])))
+    pair("Base32", B.Base32Encoder.Encode, B.Base32Decoder.Decode, lambda: rbytes(rng.choice([5, 35, 36])))
+    pair("Bech32", lambda b: B.Bech32Encoder.Encode("cosmos", b), lambda t: B.Bech32Decoder.Decode("cosmos", t), lambda: rbytes(20))
+    pair("SegwitBech32 v0", lambda b: B.SegwitBech32Encoder.Encode("bc", 0, b), lambda t: B.SegwitBech32Decoder.Decode("bc", t), lambda: rbytes(20))
+    pair("SegwitBech32 v1", lambda b: B.SegwitBech32Encoder.Encode("tb", 1, b), lambda t: B.SegwitBech32Decoder.Decode("tb", t), lambda: rbytes(32))
+    pair("BchBech32", lambda b: B.BchBech32Encoder.Encode("bitcoincash", b"\x00", b), lambda t: B.BchBech32Decoder.Decode("bitcoincash", t), lambda: rbytes(20))
+    pair("SS58", lambda b: B.SS58Encoder.Encode(b, 42), B.SS58Decoder.Decode, lambda: rbytes(32))
+    pair("WIF", lambda b: B.WifEncoder.Encode(b, b"\x80", B.WifPubKeyModes.COMPRESSED), lambda t: B.WifDecoder.Decode(t, b"\x80"), lambda: rand_priv(rng, "secp256k1"))
+    # mnemonic schemes (word lists are loaded by the single-threaded reference pass)
+    l39 = list(B.Bip39Languages)
+    pair("BIP-39", lambda e: B.Bip39MnemonicEncoder(l39[e[0] % len(l39)]).Encode(e).ToStr(), lambda m: B.Bip39MnemonicDecoder().Decode(m), lambda: rbytes(rng.choice([16, 24, 32])))
+    lxm = list(B.MoneroLanguages)
+    pair("Monero mnemonic", lambda e: B.MoneroMnemonicEncoder(lxm[e[0] % len(lxm)]).EncodeWithChecksum(e).ToStr(), lambda m: B.MoneroMnemonicDecoder().Decode(m), lambda: rbytes(rng.choice([16, 32])))
+    pair("Algorand mnemonic", lambda e: B.AlgorandMnemonicEncoder().Encode(e).ToStr(), lambda m: B.AlgorandMnemonicDecoder().Decode(m), lambda: rbytes(32))
+    pair("Electrum v1 mnemonic", lambda e: B.ElectrumV1MnemonicEncoder().Encode(e).ToStr(), lambda m: B.ElectrumV1MnemonicDecoder().Decode(m), lambda: rbytes(16))
+    # extended keys
+    def make_xkey():
+        sd = rbytes(32)
+        xprv = B.Bip32Slip10Secp256k1.FromSeed(sd).PrivateKey().ToExtended()
+        return [("Bip32Slip10Secp256k1.FromSeed(%s) extended keys" % sd.hex(), lambda: (lambda o: o.PrivateKey().ToExtended() + " " + o.PublicKey().ToExtended())(B.Bip32Slip10Secp256k1.FromSeed(sd))),
+                ("Bip32Slip10Secp256k1.FromExtendedKey(%s)" % xprv, lambda: B.Bip32Slip10Secp256k1.FromExtendedKey(xprv).ChildKey(1).PublicKey().RawCompressed().ToBytes())]
+    group("extended keys", make_xkey)
+    return groups
+
+
+def _thread_codec_stress(rng, tier, rpt):
+    """Every encoding / decoding / digest result is the same when issued concurrently from several threads. For each group of computations
+    that share code, 8 threads (minimal switch interval, released together by a barrier) keep computing — each on its own inputs — for a
+    time slice; every answer is compared with the answer the same call gave single-threaded beforehand."""
+    import time
+    n_threads = 8
+    groups = _codec_groups(rng, n_threads, 2 if tier == "quick" else 4)
+    slice_s = 0.025 if tier == "quick" else 0.3
+
+    def canon(f):
+        try:
+            r = f()
+            return r.hex() if isinstance(r, (bytes, bytearray)) else str(r)
+        except Exception as ex:  # noqa
+            return "!" + exc_kind(ex)
+    want = [[[canon(f) for _, f in items] for items in per] for _, per in groups]
+    bar = threading.Barrier(n_threads)
+    found = {}
+    calls = [0] * n_threads
+
+    def worker(t):
+        try:
+            for gi, (gname, per) in enumerate(groups):
+                items, ws = per[t], want[gi][t]
+                bar.wait(120)
+                end = time.monotonic() + slice_s
+                n = 0
+                while time.monotonic() < end and gname not in found:
+                    for ii, (desc, f) in enumerate(items):
+                        g = canon(f)
+                        n += 1
+                        if g != ws[ii]:
+                            found.setdefault(gname, (desc, g, ws[ii], f))
+                calls[t] += n
+        except BaseException:  # noqa  (never leave the other workers waiting at the barrier)
+            bar.abort()
+            raise
+    old = sys.getswitchinterval()
+    sys.setswitchinterval(1e-6)
+    try:
+        ths = [threading.Thread(target=worker, args=(t,)) for t in range(n_threads)]
+        for th in ths:
+            th.start()
+        for th in ths:
+            th.join()
+    finally:
+        sys.setswitchinterval(old)
+    if bar.broken:
+        raise RuntimeError("thread stress: a worker thread died")
+    bad = []
+    for gname, (desc, g, w, f) in sorted(found.items()):
+        if canon(f) != w or canon(f) != w:
+            continue      # does not repeat itself single-threaded either: not a matter of threads (the history relations own that)
+        bad.append({"property": "C15", "entry_point": desc.split("(")[0].split(" ")[0], "request_lines": [],
+                    "relation": "%s: a result computed while %d threads do the same kind of computation on their own inputs differs from the single-threaded result" % (gname, n_threads),
+                    "input": desc, "impl_output": g[:300], "model_output": w[:300], "no_failing_input": False})
+    rpt.extra["thread_stress_groups"] = len(groups)
+    rpt.extra["thread_stress_calls"] = sum(calls)
+    return bad[:3]
